@@ -453,6 +453,7 @@ class Translator:
         self.hrefs, self.ids = [], []
         self.changed = False
         self.uncalled = []
+        self.guards = []        # tests of the enclosing if-branches (canonical text; "else" for an else branch)
         self.cur = ("?", 0)
 
     # -- loading ---------------------------------------------------------------------------------------------------
@@ -638,7 +639,9 @@ class Translator:
                     if test is not None:
                         self.classify(test, sc)
                     sc_b = self.fork(sc)
+                    self.guards.append(unparse(test) if test is not None else "else")
                     branches.append(self.walk(b, sc_b, lex, tpl))
+                    self.guards.pop()
                     scs.append(sc_b)
                     if lex.snapshot() != s0:
                         raise Untranslatable(f"{self.where()}: an if-branch changes the HTML lexer state {s0} -> {lex.snapshot()}")
@@ -778,7 +781,7 @@ class Translator:
                     if parts is None:
                         continue
                     if an == "href":
-                        self.hrefs.append({"tpl": tpl, "line": self.cur[1], "tag": t[1], "parts": parts})
+                        self.hrefs.append({"tpl": tpl, "line": self.cur[1], "tag": t[1], "parts": parts, "guards": list(self.guards)})
                     if an == "id":
                         self.ids.append({"tpl": tpl, "line": self.cur[1], "tag": t[1], "parts": parts})
                 out.append((t[0], t[1]))
@@ -1017,9 +1020,10 @@ def render_lean(model, root_terms, macro_terms, tr, tags):
     L.append("def roots : List (String × Tm) := [" + ", ".join(
         f"({lean_str(r)}, root{i})" for i, r in enumerate(sorted(root_terms))) + "]")
     L.append("")
-    L.append("/-- every `href=` attribute value in the templates, as literal / expression parts -/")
-    L.append("def hrefs : List (String × List HPart) := [")
-    L.append(",\n".join(f"  ({lean_str(h['tpl'] + ':' + h['tag'])}, {parts_to_lean(h['parts'])})" for h in model["hrefs"]) + "]")
+    L.append("/-- every `href=` attribute value in the templates: (where, tests of the enclosing if-branches, literal / expression parts) -/")
+    L.append("def hrefs : List (String × List String × List HPart) := [")
+    L.append(",\n".join(f"  ({lean_str(h['tpl'] + ':' + h['tag'])}, [" + ", ".join(lean_str(g) for g in h["guards"]) +
+                        f"], {parts_to_lean(h['parts'])})" for h in model["hrefs"]) + "]")
     L.append("")
     L.append("/-- every `id=` attribute value in the templates -/")
     L.append("def ids : List (String × List HPart) := [")
